@@ -105,7 +105,7 @@ Streamed(c, L, R) == LET t == Tagged(c, L, R) IN [n \in 1..Len(t) |-> t[n][2]]
 \* ---- sorted inputs ("records must be sorted lexically by their join-field names"; "sorted (lexically
 \* ascending)", questions-about-joins.md) ----------------------------------------------------------
 \* TLC cannot compare strings: the key texts of the bounded universe, in ascending byte order
-KeyTexts == <<"", "10", "9", "a", "a,a", "b">>
+KeyTexts == <<"", "10", "9", "a", "a,a", "a,b", "a\\", "a\\\\", "a\\b", "b">>
 TextRank(t) == CHOOSE i \in 1..Len(KeyTexts) : KeyTexts[i] = t
 RECURSIVE LexLeq(_, _)
 LexLeq(u, v) == IF u = <<>> THEN TRUE
